@@ -287,4 +287,59 @@ theorem datetime_roundtrip (d : Date) (t : Time) (tz : Tz) (hd : d.valid = true)
     timeFromMatch_iso t ht, hzz]
   rfl
 
+theorem spanDigits_spec (s : List Char) :
+    s = (spanDigits s).1 ++ (spanDigits s).2 ∧ ∀ c ∈ (spanDigits s).1, isDigit c = true := by
+  induction s with
+  | nil => simp [spanDigits]
+  | cons c r ih =>
+    unfold spanDigits
+    by_cases hc : isDigit c = true
+    · simp only [hc, if_true]
+      refine ⟨by simp [← ih.1], ?_⟩
+      intro x hx
+      rcases List.mem_cons.mp hx with rfl | hx
+      · exact hc
+      · exact ih.2 x hx
+    · simp [hc]
+
+theorem take12_spec (s m r : List Char) (h : take12 s = some (m, r)) :
+    s = m ++ r ∧ (m.length = 1 ∨ m.length = 2) ∧ ∀ c ∈ m, isDigit c = true := by
+  unfold take12 at h
+  have hs := spanDigits_spec s
+  by_cases hl : (spanDigits s).1.length = 1 ∨ (spanDigits s).1.length = 2
+  · simp only [hl, if_true, Option.some.injEq] at h
+    rw [h] at hs hl
+    exact ⟨hs.1, hl, hs.2⟩
+  · simp [hl] at h
+
+/-- **What the date scanner accepts has the XSD shape**: digits, '-', one or two digits, '-', one or
+two digits, then the rest. -/
+theorem scanDate_shape (s : List Char) (dm : DateM) (rest : List Char) (h : scanDate s = some (dm, rest)) :
+    s = dm.year ++ '-' :: (dm.month ++ '-' :: (dm.day ++ rest)) ∧ dm.year ≠ [] ∧
+    (∀ c ∈ dm.year, isDigit c = true) ∧ (∀ c ∈ dm.month, isDigit c = true) ∧ (∀ c ∈ dm.day, isDigit c = true) ∧
+    (dm.month.length = 1 ∨ dm.month.length = 2) ∧ (dm.day.length = 1 ∨ dm.day.length = 2) := by
+  unfold scanDate at h
+  have hy := spanDigits_spec s
+  simp only at h
+  split at h
+  · simp at h
+  · rename_i hne
+    split at h
+    · rename_i r1 hy2
+      split at h
+      · rename_i m r2 hm
+        split at h
+        · rename_i d r3 hd
+          simp only [Option.some.injEq, Prod.mk.injEq] at h
+          obtain ⟨hdm, hrest⟩ := h
+          have sm := take12_spec _ _ _ hm
+          have sd := take12_spec _ _ _ hd
+          subst hdm hrest
+          refine ⟨?_, ?_, hy.2, sm.2.2, sd.2.2, sm.2.1, sd.2.1⟩
+          · conv => lhs; rw [hy.1, hy2, sm.1, sd.1]
+          · intro he; exact hne (by simpa using he)
+        · simp at h
+      · simp at h
+    · simp at h
+
 end Suds.Xsd
